@@ -12,12 +12,15 @@ Content (one batch per committed write request):
 3. code -> spec: random request streams on the real leader judged by DbTrace with the batch in scope.
 Stream (spec/NotifStream.tla):
 4. TLC checks exhaustively: <= 4 committed offsets x start {none, every offset} x <= 2 reconnects with the last
-   offset seen x 1 trimming round x 1 leader restart x a clock: delivered offsets strictly increasing, only
+   offset seen x 1 trimming round x 1 leader restart or election of a replica whose DB is 1..2 entries behind its
+   log (BecomeLeader applies the tail and stores its batches) x a clock: delivered offsets strictly increasing, only
    committed ones, no loss unless the batch was trimmed, the trimmer (binary search as in the code) removes
    exactly the batches that reached the retention time.
 5. spec -> code: every transition of a bounded graph and long simulated behaviours on a real RF=1 leader:
    GetNotifications with / without StartOffsetExclusive with the dispatcher parked in the callback (one batch
-   per step), reconnect to the same or a re-created controller, the real trimmer at instants chosen from the
+   per step), reconnect to the same or a re-created controller or to an elected replica (a real follower
+   controller fed the whole log with a lagging commit offset, fenced, closed and made leader: the tail is applied
+   by the real BecomeLeader), the real trimmer at instants chosen from the
    abstract clock; compared after every step: commit offset, notification keys stored in the DB, the offset of
    the empty first batch, the batch offered next, the batch delivered.
    The subscriber half is bound to the real client library: oxia.AsyncClient.GetNotifications against a fake
@@ -47,6 +50,8 @@ def _show(beh):
     for s in beh:
         if s["a"] in ("Subscribe",):
             out.append("Subscribe(%s)" % ("no offset" if s["arg"] == -2 else "after %d" % s["arg"]))
+        elif s["a"] == "Elect":
+            out.append("Elect(a replica whose DB is %d entries behind its log)" % s["arg"])
         elif s["a"] in ("Send", "Commit"):
             out.append("%s(%d)" % (s["a"], s["arg"]))
         else:
@@ -111,7 +116,7 @@ def run(ctx):
         "timestamps of log entries do not decrease with the offset (one leader clock; the trimmer's binary search relies on it)",
         "trimming is exercised by running the trimmer's own round (trimNotifications) at instants derived from the abstract clock; its background ticker (real time) is not exercised",
         "RF=1: every logged request is committed; 'nothing for uncommitted requests' is covered only as 'nothing for requests the leader refuses'",
-        "a leader change is a new controller on the same WAL and DB",
+        "a leader change is a new controller on the same WAL and DB (Restart) or a leader controller on the WAL and DB of a real follower that received the whole log and applied all but the last 1..3 entries (Elect); the replica's trimmer has removed what the leader's removed (same entry timestamps, same retention: the real trimmer is run on the replica)",
     ]
     # 1. content laws
     for cfg in (("db-c17-c12.cfg", "db-c17-c16.cfg") if quick else ("db-c17-c12.cfg", "db-c17-c16.cfg", "db-c17-c15.cfg")):
@@ -123,6 +128,9 @@ def run(ctx):
     m = ctx.tlc("NotifStreamMC", "notif-mutant-minusone.cfg", label="mutant-minusone", heap="2g", allow_violation=True)
     if not m.violated:
         raise vf.Inconclusive("the subscriber that cannot resume after offset -1 is not refuted: NoLoss is vacuous")
+    m = ctx.tlc("NotifStreamMC", "notif-mutant-silentreplay.cfg", label="mutant-silentreplay", heap="2g", allow_violation=True)
+    if not m.violated:
+        raise vf.Inconclusive("an election whose replay of the log tail stores no notification batches is not refuted: NoLoss is vacuous")
 
     dbc = ctx.go_build("dbcheck")
     # 2. content, spec -> code
@@ -164,6 +172,13 @@ def run(ctx):
     beh = json.loads(lines[len(lines) // 2])
     ctx.samples.append({"kind": "stream behaviour replayed on a real RF=1 leader", "steps": _show(beh), "demanded_after_last_step": beh[-1]})
     steps_path = path
+    # elections of a replica whose DB is behind its log: every transition of a graph without clock (3 offsets, lag
+    # 1..3), only the behaviours with an election; thorough: also 2 offsets with clock and trimming
+    epath, n, _ = _export(ctx, "NotifStreamMC", "notif-steps-elect.cfg", "STEP", "stream-elect")
+    _stream_replay(ctx, nb, epath, "elect")
+    if not quick:
+        tpath, n, _ = _export(ctx, "NotifStreamMC", "notif-steps-elect-thorough.cfg", "STEP", "stream-elect-trim")
+        _stream_replay(ctx, nb, tpath, "elect-trim")
     path, n, _ = _export(ctx, "NotifStreamMC", "notif-runs.cfg", "RUN", "stream-runs", simulate="num=%d" % (30 if quick else 400), depth=20, workers=1)
     _stream_replay(ctx, nb, path, "runs")
     # 5b. the subscriber half of the same behaviours: the real client library against a fake leader that does what
@@ -172,13 +187,15 @@ def run(ctx):
     cp = os.path.join(ctx.scratch, "client.ndjson")
     seen = set()
     with open(cp, "w") as out:
-        for src in (steps_path, path):
+        for src in (steps_path, epath, path):
             for l in open(src):
                 b = json.loads(l)
                 subs = [s for s in b if s["a"] == "Subscribe"]
                 if len(subs) < 2 or subs[0]["arg"] != -2:
                     continue
-                proj = json.dumps([(s["a"], s["arg"], s["dummy"]) for s in b if s["a"] in ("Subscribe", "Send", "Disconnect", "Restart")])
+                # for the subscriber an election is a leader that went away, whatever the lag
+                proj = json.dumps([("Restart", 0, s["dummy"]) if s["a"] == "Elect" else (s["a"], s["arg"], s["dummy"])
+                                   for s in b if s["a"] in ("Subscribe", "Send", "Disconnect", "Restart", "Elect")])
                 if proj not in seen and len(seen) < (60 if quick else 400):
                     seen.add(proj)
                     out.write(l)
